@@ -160,9 +160,24 @@ class C09(CaseCheck):
             items = [t if it == base else it for it in self_items]
             if rng.random() < 0.3:
                 items.append(rng.choice(["garbage:meta", "garbage:rollup", "badproto:meta", "badproto:rollup"]))
-            if rng.random() < 0.3:      # tampered entry next to the honest one, in its own blob
-                items = self_items + ["|" + t] if False else self_items + [t]
+            if rng.random() < 0.3:      # tampered entry next to the honest one
+                items = self_items + [t]
             lines.append("pipeline firm=%d rollup=r1 items=%s" % (firm, ",".join(items)))
+        # two-step replays against the verifier's cache (one verifier per case, as in one conductor process):
+        # the honest block was verified above; now metadata that re-uses its hash under another height, alone and
+        # together with its own (honest-looking) rollup data, and junk rollup entries placed BEFORE the genuine one
+        for h in heights:
+            others = [x for x in heights if x != h]
+            if not others:
+                continue
+            o = rng.choice(others)
+            forged = "m%d!height=%d" % (h, o)
+            lines.append("pipeline firm=%d rollup=r1 items=%s" % (firm, forged))
+            if "r1" in data[h]:
+                lines.append("pipeline firm=%d rollup=r1 items=%s,d%d:r1" % (firm, forged, h))
+                junk = rng.choice(["d%d:r1!flip" % h, "d%d:r1!ppath+" % h, "d%d:r1!rid=r2" % h, "d%d:r1!append" % h])
+                lines.append("pipeline firm=%d rollup=r1 items=m%d,%s,d%d:r1" % (firm, h, junk, h))
+                lines.append("pipeline firm=%d rollup=r1 items=m%d,d%d:r1,%s" % (firm, h, h, junk))
         return lines
 
     # ------------------------------------------------------------------ execution
@@ -355,6 +370,21 @@ class C09(CaseCheck):
                         h = honest.get(k)
                         if h is None or h.get("txs") != r["txs"] or h.get("ntx") != r["ntx"]:
                             fails.append("rollup data attached that is not the block's data for the rollup: %s (honest %s)" % (o, h))
+                # "anything else found in the namespaces is ignored": an honest block whose honest metadata and honest
+                # rollup data are both present (commit with quorum, not below the firm height) must come out with its data
+                items = a["items"].replace("|", ",").split(",")
+                got = {(kvs(o)["h"], kvs(o)["txs"]) for o in blk if o.startswith("rb ")}
+                dec = next((kvs(o) for o in blk if o.startswith("decoded ")), {})
+                n_m = sum(1 for i in items if i.startswith("m"))
+                n_d = sum(1 for i in items if i.startswith("d"))
+                # premise: nothing was dropped at decode level (a malformed entry drops its whole list blob, which is
+                # the poster's own blob; that is not "something else in the namespace")
+                all_decoded = dec.get("headers") == str(n_m) and dec.get("rollups") == str(n_d)
+                for k, b in (blocks.items() if all_decoded else ()):
+                    if ("m%d" % k) in items and ("d%d:%s" % (k, a["rollup"])) in items and b["quorum"] and k >= int(a["firm"]) \
+                            and k in honest and not any("panic" in o or "timeout" in o for o in blk):
+                        if (str(k), honest[k].get("txs")) not in got:
+                            fails.append("honest block %d with its honest data present was not reconstructed (items=%s)" % (k, a["items"]))
                 continue
             obs = il[idx] if idx < len(il) else ""
             idx += 1
